@@ -164,6 +164,26 @@ fn fam_bigcert(ch: Chooser, ctx: &RunCtx) -> RunOut {
     run(ch, ctx, BasicOpts { size_max: 50_000, big_cert: true, retry: 500, directed_k: 12, directed_max: 3, harness_cc_rate: 200, ..Default::default() }, false)
 }
 
+/// 0-RTT: packets abandoned by a rejection or a Retry must leave the in-flight ledger
+fn fam_zero_rtt(ch: Chooser, ctx: &RunCtx) -> RunOut {
+    let o = super::c17::C17Opts { basic: BasicOpts { op_kinds: vec![1], ops_max: 1, retry: 200, size_max: 60_000, streams_max: 4, harness_cc_rate: 200, ..Default::default() }, accept_weight: 40 };
+    let (mut w, sc) = super::c17::run_scen(ch, ctx, o, vec![Box::new(CcOracle::default())], true);
+    super::c17::end_checks(&mut w, &sc);
+    if w.violations.is_empty() && sc.b.completed_at.is_some() {
+        for c in &w.conns {
+            let p = c.conn.verif_probe();
+            if p.tracked_packets == 0 && p.in_flight_bytes != 0 {
+                let (k, d) = ("in-flight-not-zero-when-all-acked".to_string(), format!("inc{}: {} bytes in flight with no tracked packet", c.inc, p.in_flight_bytes));
+                w.violate(k, d);
+                break;
+            }
+        }
+    }
+    let mut out = RunOut::from_world(&mut w);
+    out.config = format!("zero-rtt mode={:?} retry2={} late_accept={:?} server={:?} client={:?} net={:?}", sc.mode, sc.retry2, sc.late_accept, sc.b.server_knobs, sc.b.client_knobs, w.net);
+    out
+}
+
 /// The built-in controllers alone: seeded call histories, window() never below two datagrams.
 fn fam_controllers(mut ch: Chooser, _ctx: &RunCtx) -> RunOut {
     let base = Instant::now();
@@ -259,10 +279,11 @@ pub fn spec() -> PropSpec {
     PropSpec {
         id: "C12",
         families: vec![
-            Family { name: "faults", f: fam_faults, weight: 35 },
-            Family { name: "clean-path", f: fam_clean, weight: 25 },
+            Family { name: "faults", f: fam_faults, weight: 30 },
+            Family { name: "clean-path", f: fam_clean, weight: 20 },
             Family { name: "handshake-abandon", f: fam_bigcert, weight: 15 },
-            Family { name: "controller-histories", f: fam_controllers, weight: 25 },
+            Family { name: "zero-rtt", f: fam_zero_rtt, weight: 15 },
+            Family { name: "controller-histories", f: fam_controllers, weight: 20 },
         ],
         quick_worlds: 20_000,
         thorough_worlds: 600_000,
